@@ -474,6 +474,27 @@ func c08CrossSession(r *vlib.Run) {
 			r.Inconclusive("client-watchdog")
 			continue
 		}
+		// an allowed and a denied file in one request: the allowed one is served
+		// completely ("every file so allowed is served"), the denied one not at all
+		if k%5 == 2 {
+			mixed := client("dcat", "bob", bHome, bKey, "--files", filepath.Join(root, "pub", "p0.log")+","+filepath.Join(root, "secret", "big.log"))
+			nAllowed := 0
+			for _, l := range strings.Split(strings.TrimSuffix(string(mixed.Stdout), "\n"), "\n") {
+				if strings.HasPrefix(l, "PUB file 0 ") && pubLines[l] {
+					nAllowed++
+				} else if l != "" && !strings.HasPrefix(l, "SERVER|") {
+					foreign++
+					if len(examples) < 6 {
+						examples = append(examples, vlib.Trunc(l, 160))
+					}
+				}
+			}
+			r.Count("requests_mixing_an_allowed_and_a_denied_file", 1)
+			if nAllowed != 4000 && !mixed.TimedOut {
+				r.Violation("e2e-allowed-file-not-served", map[string]interface{}{"request": "pub/p0.log,secret/big.log as bob", "allowed_lines_received": nAllowed, "want": 4000,
+					"exit": mixed.Exit, "hung": mixed.Hung})
+			}
+		}
 		// also a request for the secret file itself, in the same breath
 		if k%4 == 0 {
 			deny := client("dcat", "bob", bHome, bKey, "--files", filepath.Join(root, "secret", "big.log"))
